@@ -28,6 +28,12 @@ def programs():
         "mixed_rank_outputs": (lambda x: (x * 3.0, jnp.sum(x, axis=(1, 2, 3))), 1),
         "transpose_inside": (lambda x: jnp.transpose(jnp.transpose(x, (0, 3, 1, 2)) * 2.0, (0, 2, 3, 1)), 1),
         "reshape_inside": (lambda x: x.reshape(x.shape[0], -1, x.shape[3]).reshape(x.shape) + 1.0, 1),
+        # programs that READ spatial / channel extents at run time (with symbolic dims the value comes from the
+        # graph input through the recorded origin of each symbol, which a layout-flagged input permutes)
+        "scale_by_height": (lambda x: x * (x.shape[1] * 1.0) + x.shape[2], 1),
+        "flatten_hw": (lambda x: x.reshape(x.shape[0], x.shape[1] * x.shape[2], x.shape[3]) * 2.0, 1),
+        "arange_over_width": (lambda x: x + jnp.arange(x.shape[2], dtype=x.dtype)[None, None, :, None], 1),
+        "sum_scaled_by_dims": (lambda x: jnp.sum(x, axis=(1, 2)) * (x.shape[1] * 10.0 + x.shape[2]), 1),
     }
     try:
         from flax import nnx
@@ -57,16 +63,17 @@ def run_program(name: str, quick: bool) -> dict[str, Any]:
     fn, nin = programs()[name]
     out: dict[str, Any] = {"prog": name, "cases": [], "rejections": []}
     shapes = SHAPES[:1] if quick else SHAPES
-    for shp in shapes:
+    for shp, symbolic in [(s_, sy) for s_ in shapes for sy in (False, True)]:
+        spec = ("B", "H", "W", shp[3]) if symbolic else shp
         xs = [(((np.arange(int(np.prod(shp))) * 7 + 3 * k) % 23 - 11) / 4.0).reshape(shp).astype(np.float32) for k in range(nin)]
         ref = [np.asarray(v) for v in jax.tree_util.tree_leaves(fn(*[jnp.asarray(x) for x in xs]))]
         nout = len(ref)
         four_d_out = [j for j, r in enumerate(ref) if r.ndim == 4]
         try:
-            plain = jax2onnx.to_onnx(fn, [shp] * nin)
+            plain = jax2onnx.to_onnx(fn, [spec] * nin)
             plain_out = U.ort_run(plain, {i.name: x for i, x in zip(plain.graph.input, xs)})
         except Exception as ex:  # noqa: BLE001
-            out["cases"].append({"shape": shp, "in": [], "out": [], "ok": False, "why": f"plain export/run failed: {type(ex).__name__}: {str(ex)[:160]}", "plain_failed": True})
+            out["cases"].append({"shape": shp, "symbolic": symbolic, "in": [], "out": [], "ok": False, "why": f"plain export/run failed: {type(ex).__name__}: {str(ex)[:160]}", "plain_failed": True})
             continue
         in_subsets = [list(s) for r in range(nin + 1) for s in itertools.combinations(range(nin), r)]
         out_subsets = [list(s) for r in range(len(four_d_out) + 1) for s in itertools.combinations(four_d_out, r)]
@@ -74,9 +81,9 @@ def run_program(name: str, quick: bool) -> dict[str, Any]:
             for outs in out_subsets:
                 if not ins and not outs:
                     continue
-                rec: dict[str, Any] = {"shape": list(shp), "in": ins, "out": outs, "ok": True, "why": None}
+                rec: dict[str, Any] = {"shape": list(shp), "symbolic": symbolic, "in": ins, "out": outs, "ok": True, "why": None}
                 try:
-                    m = jax2onnx.to_onnx(fn, [shp] * nin, inputs_as_nchw=ins or None, outputs_as_nchw=outs or None)
+                    m = jax2onnx.to_onnx(fn, [spec] * nin, inputs_as_nchw=ins or None, outputs_as_nchw=outs or None)
                 except Exception as ex:  # noqa: BLE001
                     rec.update(ok=False, why=f"export raised: {type(ex).__name__}: {str(ex)[:160]}")
                     out["cases"].append(rec)
@@ -86,6 +93,8 @@ def run_program(name: str, quick: bool) -> dict[str, Any]:
                     feeds[vi.name] = _nchw(x) if k in ins else x
                     want_shape = list(_nchw(x).shape if k in ins else x.shape)
                     decl = [d.dim_value for d in vi.type.tensor_type.shape.dim]
+                    if symbolic:
+                        decl = [dv if dv else ws for dv, ws in zip(decl, want_shape)]     # symbolic dims carry no value
                     if decl != want_shape:
                         rec.update(ok=False, why=f"input {k} declared {decl}, expected {want_shape}")
                 try:
@@ -106,6 +115,8 @@ def run_program(name: str, quick: bool) -> dict[str, Any]:
                     elif not np.allclose(got[j], want_jax, rtol=1e-5, atol=1e-5):
                         rec.update(ok=False, why=f"output {j} differs from JAX")
                 out["cases"].append(rec)
+        if symbolic:
+            continue
         # invalid selections
         bad = [
             ("index_out_of_range_in", dict(inputs_as_nchw=[nin])),
@@ -123,8 +134,6 @@ def run_program(name: str, quick: bool) -> dict[str, Any]:
                 out["rejections"].append({"label": label, "rejected": False})
             except Exception as ex:  # noqa: BLE001
                 out["rejections"].append({"label": label, "rejected": True, "error": f"{type(ex).__name__}"})
-        if quick:
-            break
     # rank-3 input flagged: must be rejected
     try:
         jax2onnx.to_onnx(lambda x: x * 2.0, [(2, 3, 4)], inputs_as_nchw=[0])
